@@ -111,7 +111,7 @@ HllArray<A>* HllArray<A>::newHll(const void* bytes, size_t len, const A& allocat
   const bool comapctFlag = ((data[hll_constants::FLAGS_BYTE] & hll_constants::COMPACT_FLAG_MASK) ? true : false);
   const bool startFullSizeFlag = ((data[hll_constants::FLAGS_BYTE] & hll_constants::FULL_SIZE_FLAG_MASK) ? true : false);
 
-  const uint8_t lgK = data[hll_constants::LG_K_BYTE];
+  const uint8_t lgK = HllUtil<A>::checkLgK(data[hll_constants::LG_K_BYTE]);
   const uint8_t curMin = data[hll_constants::HLL_CUR_MIN_BYTE];
 
   const uint32_t arrayBytes = hllArrBytes(tgtHllType, lgK);
